@@ -129,7 +129,8 @@ def assembly(ctx, report, facts, config, rule="C07.SAME"):
     create = facts.one(name="create", self_head=A.BCS, container="inherent")
     addb = facts.one(A.DB + "::add")
     newb = facts.one(name="new", self_head=A.BACC, container="inherent")
-    ev, ends = Q.sem(ctx, facts, A.DB + "::add_batch", opaque=[far.key, faw.key, build.key, create.key, addb.key, newb.key])
+    insb = facts.one(A.SB + "::insert")
+    ev, ends = Q.sem(ctx, facts, A.DB + "::add_batch", opaque=[far.key, faw.key, build.key, create.key, addb.key, newb.key, insb.key, A.DB + "::next_id"])
     rets = [e for e in ends if e.kind == "return"]
     if not rets:
         report.ob(rule, "add_batch/assembly", False, "no normal path through add_batch", site=b.loc(), config=config)
@@ -140,13 +141,22 @@ def assembly(ctx, report, facts, config, rule="C07.SAME"):
         builds = [x for x in calls if x[2].key == build.key]
         creates = [x for x in calls if x[2].key == create.key]
         adds = [x for x in calls if x[2].key == addb.key]
+        # registered through self.add(batch, name, dep), or placed directly (add_batch is then a registration entry of
+        # its own, and the obligations of an entry are decided for it by C18.REJECT / C02.IDS)
+        direct = [x for x in calls if x[2].key == insb.key]
+        placed_directly = False
+        if not adds and len(direct) == 1 and len(direct[0][3]) == 4:
+            adds = [("call", direct[0][1], direct[0][2], (("param", 1), direct[0][3][3], ("param", 4), ("param", 5)), direct[0][4])]
+            placed_directly = Q.strip(ev, direct[0][3][0]) == ("field", ("param", 1), "stages_builder", A.DB)
+            if not placed_directly:
+                adds = []
         fas = [x for x in calls if x[2].key in (far.key, faw.key)]
         ok = len(builds) == 1 and len(creates) == 1 and len(adds) == 1 and len(fas) == 2 and len(news) == 1
         detail = "%d build / %d create / %d add / %d fetch_all" % (len(builds), len(creates), len(adds), len(fas))
         if ok:
             # nothing but the pool slot of the given builder is replaced before it is built
             other_stores = [x for x in e.path.events if x[0] == "store" and x[2][0] == "field" and x[2][1] == ("param", 3) and x[2][2] != "thread_pool"]
-            ok = (builds[0][3] == (("param", 3),) and not other_stores and all(pos[id(f)] < pos[id(builds[0])] for f in fas)
+            ok = (builds[0][3] == (("param", 3),) and not other_stores and all(pos[id(f)] < pos[id(builds[0])] for f in fas if id(f) in pos)
                   and creates[0][3][0] == news[0][4] and creates[0][3][1] == ("param", 2)
                   and creates[0][3][2] == builds[0][4]
                   and adds[0][3][0] == ("param", 1) and adds[0][3][1] == creates[0][4] and adds[0][3][2:] == (("param", 4), ("param", 5)))
